@@ -121,9 +121,9 @@ func checkC15(c *km.Ctx) {
 	r.NotDecided = []string{"SQL engine atomicity / crash points as such", "byte-identical round trips of profile values", "the synchronisation schedule"}
 	r.Assume = []string{"database/sql transactions are atomic", "encoding/gob encodes exported fields only", "go/types + go/ssa model the source faithfully"}
 
-	r.Rule("R-C15-1", "codec agreement: SaveUserProfile encodes *userProfile, LoadUserProfile decodes into userProfile; every module-defined struct reachable from it has only exported fields; every upsert statement stores the new profile bytes", 3)
+	r.Rule("R-C15-1", "codec agreement: SaveUserProfile encodes *userProfile, LoadUserProfile decodes into userProfile; every module-defined struct reachable from it has only exported fields; every upsert statement stores the new profile bytes; the CREATE TABLE texts of the two dialects agree on names, type class, uniqueness and collation", 3)
 	r.Rule("R-C15-2", "synchronisation is one transaction whose statements run: one Begin on the destination, all destination statements through that Tx, deferred Rollback, Commit last; no DML through Query/QueryRow anywhere in the storage code", 5)
-	r.Rule("R-C15-3", "mirror, not merge: every table the synchronisation inserts into is DELETEd in the same transaction before the inserts", 1)
+	r.Rule("R-C15-3", "mirror, not merge: every table the synchronisation inserts into is DELETEd in the same transaction before the inserts; nil is returned only after Commit; the expiry filter of the copied records compares with the current time only", 1)
 	r.Rule("R-C15-4", "no writes from a cached read: every SaveUserProfile of a loaded profile is dominated by fromCache == false; storage readers send on their result channel only after a successful Prepare (an unreachable primary falls back to the cache)", 7)
 
 	// ---------- R-C15-1
